@@ -4,7 +4,7 @@ package seqhash
 
 // C04: seqhash is invariant under rotation, strand, case and RNA/DNA spelling.
 //
-// verif:bound C04 rotation clause: sequences over the whole accepted alphabet of the type (both cases), length 1..4 (quick) / 1..6 (thorough), every rotation offset, both strandedness values, all three types
+// verif:bound C04 rotation clause: sequences over the whole accepted alphabet of the type (both cases), length 1..4 (quick) / 1..6 (thorough), every rotation offset, both strandedness values, all three types; over ACGT additionally length 5..6 (quick) / 5..8 (thorough)
 // verif:bound C04 strand clause: sequences over the 15 IUPAC codes (plus U under RNA), both cases, length 1..3 (quick) / 1..6 (thorough), circular and linear
 // verif:bound C04 case clause: length 1..3 (quick) / 1..5 (thorough); RNA/DNA clause: length 1..4 (quick) / 1..6 (thorough); all four flag combinations
 // verif:bound C04 outside the claim: longer sequences (the quantifier goes to 10^5)
@@ -33,6 +33,18 @@ func Harness_C04_Rotation() {
 	vAssert(e1 == nil && e2 == nil, "accepted")
 	vAssert(vEqStr(h1, h2), "rotation-invariant")
 	vCover("C04 rotated by a non-zero offset", k > 0)
+}
+
+// longer circular sequences over the four bases (failure-function chains need length)
+func Harness_C04_RotationACGT() {
+	n := 5 + vChoice(vTier(2, 4))
+	k := vChoice(n)
+	ds := vChoice(2) == 1
+	s := vBytes(n, "ACGT")
+	h1, e1 := Hash(s, "DNA", true, ds)
+	h2, e2 := Hash(s[k:]+s[:k], "DNA", true, ds)
+	vAssert(e1 == nil && e2 == nil, "accepted")
+	vAssert(vEqStr(h1, h2), "rotation-invariant")
 }
 
 func Harness_C04_Strand() {
